@@ -63,6 +63,10 @@ def ldate(u, off):
     return (EPOCH + timedelta(microseconds=u) + timedelta(seconds=off)).date()
 
 
+def local_year(u, off):
+    return (EPOCH + timedelta(microseconds=u) + timedelta(seconds=off)).year
+
+
 def ts_of(u, off):
     return str((EPOCH + timedelta(microseconds=u)).astimezone(timezone(timedelta(seconds=off))))
 
